@@ -151,10 +151,10 @@ func derivedQueries() []*m.Q {
 // ---- configurations ----
 
 var names3 = []string{"a", "ab", "a.b"}
-var names7 = []string{"a", "ab", "a.b", "", "é", "coll:", "c:a"}
+var names7 = []string{"a", "ab", "a.b", "", "é", "coll:", "c:a", "ad:", "ai:x"}
 
 func ssConfigs(tier string) map[string]*eng.SSConfig {
-	q, t := 30*time.Second, 8*time.Minute
+	q, t := 90*time.Second, 10*time.Minute
 	return map[string]*eng.SSConfig{
 		"consistency": {Name: "consistency", Alphabet: alphabetC06(), Raw: true, Budget: budget(tier, q, t)},
 		"names3":      {Name: "names3", Alphabet: alphabetNames(names3), Raw: true, Audit: drv.AuditOpts{Names: names7}, Budget: budget(tier, q, t)},
